@@ -74,6 +74,11 @@ func (cl *Client) ASExchange(realm string, ASReq messages.ASReq, referral int) (
 	if err != nil {
 		return messages.ASRep{}, krberror.Errorf(err, krberror.EncodingError, "AS Exchange Error: failed to process the AS_REP")
 	}
+	if pas := types.PADataSequence(ASRep.PAData); !pas.Contains(patype.PA_ETYPE_INFO2) && !pas.Contains(patype.PA_ETYPE_INFO) && !pas.Contains(patype.PA_PW_SALT) {
+		// The KDC need not repeat in its reply the string-to-key hints it sent with its pre-authentication error
+		// (RFC 4120 5.2.7.5): the reply key is the one the client pre-authenticated with.
+		ASRep.PAData = append(ASRep.PAData, cl.settings.negotiatedPreAuthHints()...)
+	}
 	if ok, err := ASRep.Verify(cl.Config, cl.Credentials, ASReq); !ok {
 		return messages.ASRep{}, krberror.Errorf(err, krberror.KRBMsgError, "AS Exchange Error: AS_REP is not valid or client password/keytab incorrect")
 	}
@@ -126,7 +131,12 @@ func setPAData(cl *Client, krberr *messages.KRBError, ASReq *messages.ASReq) err
 			if err != nil {
 				return krberror.Errorf(err, krberror.EncryptingError, "error getting etype for pre-auth encryption")
 			}
-			key, kvno, err = cl.Key(et, 0, nil)
+			if hints := cl.settings.negotiatedPreAuthHints(); len(hints) > 0 && cl.Credentials.HasPassword() && !cl.Credentials.HasKeytab() {
+				// derive the key the way the KDC said it derives it (salt, parameters) when the etype was negotiated
+				key, _, err = crypto.GetKeyFromPassword(cl.Credentials.Password(), cl.Credentials.CName(), cl.Credentials.Domain(), etn, hints)
+			} else {
+				key, kvno, err = cl.Key(et, 0, nil)
+			}
 			if err != nil {
 				return krberror.Errorf(err, krberror.EncryptingError, "error getting key from credentials")
 			}
@@ -137,6 +147,7 @@ func setPAData(cl *Client, krberr *messages.KRBError, ASReq *messages.ASReq) err
 				return krberror.Errorf(err, krberror.EncryptingError, "error getting etype for pre-auth encryption")
 			}
 			cl.settings.setNegotiatedPreAuthEType(et.GetETypeID()) // Set the etype that has been defined for potential future use
+			cl.settings.setNegotiatedPreAuthHints(stringToKeyHints(krberr.EData))
 			key, kvno, err = cl.Key(et, 0, krberr)
 			if err != nil {
 				return krberror.Errorf(err, krberror.EncryptingError, "error getting key from credentials")
@@ -169,6 +180,21 @@ func setPAData(cl *Client, krberr *messages.KRBError, ASReq *messages.ASReq) err
 		ASReq.PAData = append(ASReq.PAData, pa)
 	}
 	return nil
+}
+
+// stringToKeyHints returns the pre-authentication data of a KRBError's e-data that say how the client's key is derived.
+func stringToKeyHints(edata []byte) types.PADataSequence {
+	var pas, hints types.PADataSequence
+	if err := pas.Unmarshal(edata); err != nil {
+		return nil
+	}
+	for _, pa := range pas {
+		switch pa.PADataType {
+		case patype.PA_ETYPE_INFO2, patype.PA_ETYPE_INFO, patype.PA_PW_SALT:
+			hints = append(hints, pa)
+		}
+	}
+	return hints
 }
 
 // preAuthEType establishes what encryption type to use for pre-authentication from the KRBError returned from the KDC.
